@@ -6,6 +6,10 @@ import (
 	"fmt"
 	"sort"
 	"strings"
+	"sync"
+
+	"github.com/streamingfast/substreams/manifest"
+	"google.golang.org/protobuf/proto"
 
 	pbsubstreams "github.com/streamingfast/substreams/pb/sf/substreams/v1"
 )
@@ -29,6 +33,26 @@ type ModDef struct {
 type PkgDef struct {
 	Mods   []*ModDef `json:"mods"`
 	Output string    `json:"output"`
+	// Spkg: path of a compiled package (run on the real wazero runtime) instead of generated simvm programs
+	Spkg string `json:"spkg,omitempty"`
+}
+
+var spkgCache sync.Map
+
+func loadSpkg(path string) *pbsubstreams.Modules {
+	if v, ok := spkgCache.Load(path); ok {
+		return proto.Clone(v.(*pbsubstreams.Modules)).(*pbsubstreams.Modules)
+	}
+	rd, err := manifest.NewReader(path)
+	if err != nil {
+		panic(fmt.Errorf("reading %s: %w", path, err))
+	}
+	b, err := rd.Read()
+	if err != nil {
+		panic(fmt.Errorf("reading %s: %w", path, err))
+	}
+	spkgCache.Store(path, b.Package.Modules)
+	return proto.Clone(b.Package.Modules).(*pbsubstreams.Modules)
 }
 
 func (p *PkgDef) Mod(name string) *ModDef {
@@ -41,7 +65,7 @@ func (p *PkgDef) Mod(name string) *ModDef {
 }
 
 func (p *PkgDef) Clone() *PkgDef {
-	out := &PkgDef{Output: p.Output}
+	out := &PkgDef{Output: p.Output, Spkg: p.Spkg}
 	for _, m := range p.Mods {
 		c := *m
 		c.Spec.Inputs = append([]InSpec(nil), m.Spec.Inputs...)
@@ -67,6 +91,9 @@ var policyEnum = map[string]pbsubstreams.Module_KindStore_UpdatePolicy{
 
 // Modules renders the package as the protobuf the engine consumes. One binary per module.
 func (p *PkgDef) Modules() *pbsubstreams.Modules {
+	if p.Spkg != "" {
+		return loadSpkg(p.Spkg)
+	}
 	out := &pbsubstreams.Modules{}
 	for i, m := range p.Mods {
 		out.Binaries = append(out.Binaries, &pbsubstreams.Binary{Type: "wasm/rust-v1", Content: m.Spec.Binary()})
@@ -460,6 +487,9 @@ func (p *PkgDef) Prune() *PkgDef {
 }
 
 func (p *PkgDef) Summary() string {
+	if p.Spkg != "" {
+		return "spkg:" + p.Spkg + " -> " + p.Output
+	}
 	var parts []string
 	for _, m := range p.Mods {
 		var ins []string
